@@ -279,7 +279,7 @@ P("C12", level="proof",
   not_covered=["echsx honouring the no-run flag", "chld_cb for a child whose task object was freed and recycled", "interleavings as such (libev)"])
 E12 = dict(gi_steps=[["--remove-function-body", "vtodoify"], ["--generate-function-body", "vtodoify", "--generate-function-body-options", "nondet-return"]],
            solver=["minisat", "kissat"], timeout={"quick": 600, "thorough": 1800}, **ECHSD_NATIVE)
-O("C12.task_cb", "C12", "h_C12.c", "h_C12_task_cb",
+O("C12.task_cb", ["C12", "C04"], "h_C12.c", "h_C12_task_cb",
   "task_cb: one request to the executor per due occurrence; below the limit (or unlimited) it is started, counted and supervised; at the limit it is reported as not run and not counted; running <= N is preserved; N = 1..62 and unset",
   ["task_cb", "run_task", "make_chld"], **E12)
 O("C12.chld_cb", "C12", "h_C12.c", "h_C12_chld_cb",
@@ -287,3 +287,15 @@ O("C12.chld_cb", "C12", "h_C12.c", "h_C12_chld_cb",
 O("C12.two_tasks", "C12", "h_C12.c", "h_C12_two_tasks",
   "task A refused at its limit, then task B below its limit: B is started normally (the static argv of run_task carries nothing over), only B's count changes",
   ["task_cb", "run_task"], **E12)
+
+# ------------------------------------------------------------------ C04
+P("C04", level="other",
+  level_text="The property is a statement about histories of libev callbacks. What contracts carry is the inductive step, proved on the real echsd.c against an abstract sorted task stream: resched/unwind_till arm the timer for exactly the unix time of the first occurrence at or after now, never for the past, discard exactly the past occurrences (several late occurrences collapse into the one armed next), leave the armed occurrence at the head, unschedule a task with no future occurrence without running it, and do not re-arm after the last one; instant_to_tstamp is exact for every instant 1901..2099 (C08.tstamp); task_cb makes exactly one executor request per expiry (C12.task_cb). The history-level claim follows by induction over these contracts and the documented libev contract (lemma L-C04, prose, not machine-checked).",
+  level_note="Trusted: libev's periodic-watcher contract; abstract stream model; lemma L-C04. Bounded: 3 pending occurrences per call in the resched obligation. Not covered: add/replace/cancel histories (see C11), child-exit interleavings, ev_rt_now vs wall clock.",
+  explanation="per-callback contracts are discharged (resched bounded by 3 pending occurrences); the exactly-once-per-occurrence history claim is an induction in prose over them and the assumed libev contract",
+  not_covered=["history-level exactly-once claim (lemma L-C04, prose)", "libev itself", "command histories (add/replace/cancel)"])
+O("C04.resched", "C04", "h_C04.c", "h_C04_resched",
+  "resched + unwind_till: arms the unix time of the first occurrence >= now, discards exactly the past ones, keeps the armed occurrence at the head, handles 'never run' and 'completed'",
+  ["resched", "unwind_till"], dfcc=True, replace=["instant_to_tstamp"], replace_status={"instant_to_tstamp": "discharged by C08.tstamp (value); here by an order-preserving table contract"},
+  kind="bounded", bound="3 pending occurrences per call", unwind=6, replay=False, replay_note="callee replaced by contract",
+  solver=["minisat", "kissat", "z3"], timeout={"quick": 600, "thorough": 1800})
